@@ -96,4 +96,58 @@ theorem react_no_forceful (cfg : Cfg) (cs : CS) (q) :
   | pending => simp [react, sentCtls] at hc; rcases hc with rfl | rfl <;> simp
   | finished s => simp [react, sentCtls] at hc; rcases hc with rfl | rfl <;> simp
 
+/-! ### signals received by watchexec itself (C08, last sentence)
+
+`config.rs`: a batch that carries Terminate or Interrupt (and `--map-signal` does not map them) quits — the first
+time gracefully with the configured stop signal and stop timeout, a second time with KILL and no grace, a third time by
+abort; every other signal is passed on to the command. (`--map-signal` is not modelled.) -/
+
+def sigInt : Sig := 2
+
+inductive Manner | graceful (sig : Sig) (grace : Nat) | abort deriving DecidableEq, Repr
+
+inductive SigAct
+  | quit (m : Manner)
+  | pass (sigs : List Sig)        -- `job.signal(sig)` for each, in order; the handler then returns (no filesystem event)
+  deriving DecidableEq, Repr
+
+def onSignals (cfg : Cfg) (quitCount : Nat) (sigs : List Sig) : SigAct :=
+  if sigs.contains term || sigs.contains sigInt then
+    match quitCount with
+    | 0 => .quit (.graceful (cfg.stopSignal.getD term) cfg.stopTimeout)
+    | 1 => .quit (.graceful 9 0)
+    | _ => .quit .abort
+  else .pass sigs
+
+/-- what the action worker does with a quit, per job: `stop_with_signal(sig, grace)` then `delete()` (graceful), or the
+    job task is aborted and the handle dropped (abort) -/
+def quitCtls : Manner → List (List Ctl)
+  | .graceful sig grace => [[.gracefulStop sig grace], [.stop, .delete]]
+  | .abort => []
+
+/-- **an interrupt or terminate signal leads to exactly the graceful shutdown**: the first one quits with the configured
+    stop signal (default TERM) and the configured stop timeout — whatever else the batch carries -/
+theorem first_interrupt_quits_gracefully (cfg : Cfg) (sigs : List Sig) (h : term ∈ sigs ∨ sigInt ∈ sigs) :
+    onSignals cfg 0 sigs = .quit (.graceful (cfg.stopSignal.getD term) cfg.stopTimeout) := by
+  have : (sigs.contains term || sigs.contains sigInt) = true := by
+    rcases h with h | h <;> simp [h]
+  (unfold onSignals; rw [if_pos this]; rfl)
+
+/-- … and per job that is: GracefulStop(stop signal, stop timeout), then Stop + Delete — the sequence C08's bound is about -/
+theorem graceful_quit_sequence (sig : Sig) (grace : Nat) :
+    quitCtls (.graceful sig grace) = [[.gracefulStop sig grace], [.stop, .delete]] := rfl
+
+/-- any other signal never quits: it is handed to the command unchanged -/
+theorem other_signals_pass (cfg : Cfg) (n : Nat) (sigs : List Sig) (h1 : term ∉ sigs) (h2 : sigInt ∉ sigs) :
+    onSignals cfg n sigs = .pass sigs := by
+  have : ¬ (sigs.contains term || sigs.contains sigInt) = true := by simp [h1, h2]
+  unfold onSignals; rw [if_neg this]
+
+/-- repeated interrupts escalate: KILL without grace, then abort -/
+theorem interrupts_escalate (cfg : Cfg) (sigs : List Sig) (h : term ∈ sigs ∨ sigInt ∈ sigs) :
+    onSignals cfg 1 sigs = .quit (.graceful 9 0) ∧ ∀ n, onSignals cfg (n + 2) sigs = .quit .abort := by
+  have : (sigs.contains term || sigs.contains sigInt) = true := by
+    rcases h with h | h <;> simp [h]
+  exact ⟨by (unfold onSignals; rw [if_pos this]; rfl), fun n => by (unfold onSignals; rw [if_pos this]; rfl)⟩
+
 end Ca
